@@ -84,6 +84,12 @@ func scCheckScript(b []byte, resp srv.Resp, ids map[string]bool, idmu *sync.Mute
 	if sc.idIn != sc.idOut {
 		fs = append(fs, scFinding{"ids-differ", what})
 	}
+	// one script, not several: exactly one command fetching input and one sending output, one interpreter line
+	if n, m := len(reCurlIn.FindAll(b, -1)), len(reCurlOut.FindAll(b, -1)); n != 1 || m != 1 || bytes.Count(b, []byte("#!/bin/sh")) > 1 ||
+		len(regexp.MustCompile(`https://[^\s"']*/[io]/`).FindAll(b, -1)) != 2 {
+		what["body"] = string(b)
+		fs = append(fs, scFinding{"script-has-leftover-or-extra-commands", what})
+	}
 	if sc.urlIn != sc.urlOut {
 		fs = append(fs, scFinding{"urls-differ", what})
 	}
@@ -493,6 +499,16 @@ func scTemplateWalk(g *graph.G, walk []int, dir string, ids map[string]bool, idm
 				}
 				_, f2 := scCheckScript(resp.Body, resp, ids, idmu, what)
 				fs = append(fs, f2...)
+				if with == "v1" || with == "v2" {
+					// the script is the rendering of the file as it is now: nothing before, nothing after
+					sc, _ := parseScript(resp.Body)
+					want := fmt.Sprintf(tmplBody, strings.ToUpper(with))
+					want = strings.NewReplacer("{{.PubkeyFP}}", sc.fpIn, "{{.URL}}", sc.urlIn, "{{.ID}}", sc.idIn).Replace(want)
+					if string(resp.Body) != want {
+						what["rendering_expected"] = want
+						fs = append(fs, scFinding{"script-is-not-the-rendering-of-the-template:" + with, what})
+					}
+				}
 				marker := map[string]string{"v1": "# V1", "v2": "# V2"}[with]
 				isDefault := !bytes.Contains(resp.Body, []byte("# V1")) && !bytes.Contains(resp.Body, []byte("# V2"))
 				if (with == "default" && !isDefault) || (with != "default" && !bytes.Contains(resp.Body, []byte(marker))) {
